@@ -62,12 +62,14 @@ type GhostUpdate struct {
 type LoopSpec struct {
 	Selector   string
 	Invariants []*Clause
+	Witness    []WitnessSpec
 	Line       int
 	matched    bool
 }
 
 type FuncSpec struct {
 	Key      string
+	Keys     []string
 	File     string
 	Line     int
 	Requires []*Clause
@@ -219,6 +221,7 @@ func parseSpecText(db *SpecDB, text, file, prefix string, assumed bool) error {
 			site, loop = nil, nil
 			for _, k := range keys {
 				k = strings.TrimSpace(k)
+				fs.Keys = append(fs.Keys, k)
 				if strings.Contains(k, "*.") || strings.HasSuffix(k, "*") && !strings.HasPrefix(k, "(*") {
 					db.Pattern = append(db.Pattern, fs)
 				}
@@ -382,8 +385,8 @@ func parseSpecText(db *SpecDB, text, file, prefix string, assumed bool) error {
 			}
 			site.Asserts = append(site.Asserts, c)
 		case "witness":
-			if site == nil {
-				return errf("witness outside site")
+			if site == nil && loop == nil {
+				return errf("witness outside site or loop")
 			}
 			m := regexp.MustCompile(`^(\w+)(?:\[(\w+)<(\d+)\])?\s*=\s*(.+)$`).FindStringSubmatch(rest)
 			if m == nil {
@@ -395,7 +398,11 @@ func parseSpecText(db *SpecDB, text, file, prefix string, assumed bool) error {
 			}
 			w := WitnessSpec{Name: m[1], Var: m[2], E: e}
 			fmt.Sscanf(m[3], "%d", &w.Bound)
-			site.Witness = append(site.Witness, w)
+			if site != nil {
+				site.Witness = append(site.Witness, w)
+			} else {
+				loop.Witness = append(loop.Witness, w)
+			}
 		case "update", "bind":
 			name, ex, ok := strings.Cut(rest, "=")
 			if !ok || site == nil {
